@@ -106,7 +106,7 @@ struct Acc {
   double worst[O_COUNT] = {0};
   uint64_t regions[REG_NONE + 1] = {0};
   uint64_t kinds[5] = {0};
-  uint64_t newton = 0, brent = 0, limit_ties = 0, crowded = 0, underflow = 0;
+  uint64_t newton = 0, brent = 0, limit_ties = 0, crowded = 0, underflow = 0, boundary_not_bracketed = 0;
   void note(int o, double ratio) {
     ++checks[o];
     if (ratio > 0.1 && ratio <= 1.)
@@ -211,7 +211,11 @@ static void ref_state(const Ctx &C, int reg, double xi, double &r, double &u, do
 /// vacuum moves (in the vacuum itself: whether any of the two moves)
 static std::string regime_of_region(const Ctx &C, int reg) {
   std::string s = region_name(reg);
-  if (C.ref.kind == K_VACGEN || C.code_vacgen) {
+  if (C.ref.kind == K_VAC_LEFT || C.ref.kind == K_VAC_RIGHT) {
+    // one-sided vacuum: does the gas move?
+    const double uK = C.ref.kind == K_VAC_LEFT ? C.P.uR : C.P.uL;
+    s += uK != 0. ? ":vacuum-moving-gas" : ":vacuum-gas-at-rest";
+  } else if (C.ref.kind == K_VACGEN || C.code_vacgen) {
     bool moving;
     if (reg == REG_L || reg == REG_LFAN || reg == REG_LSTAR)
       moving = C.P.uL != 0.;
@@ -469,9 +473,13 @@ static void check_problem(const ExactRiemannSolver &S, const Prob &P, Result &R,
   ++A.problems;
   ++A.kinds[C.ref.kind];
   const RefQ &ref = C.ref;
-  {
-    const double aLd = S.get_soundspeed(1. / P.rL, P.pL), aRd = S.get_soundspeed(1. / P.rR, P.pR);
-    C.code_vacgen = S._tdgm1 * aLd + S._tdgm1 * aRd <= P.uR - P.uL;
+  const bool onesided = ref.kind == K_VAC_LEFT || ref.kind == K_VAC_RIGHT;
+  // the code's own double sound speeds (0 on a vacuum side, as in solve())
+  const double aLcode = P.rL > 0. && P.pL > 0. ? S.get_soundspeed(1. / P.rL, P.pL) : 0.;
+  const double aRcode = P.rR > 0. && P.pR > 0. ? S.get_soundspeed(1. / P.rR, P.pR) : 0.;
+  C.code_vacgen = false;
+  if (!onesided) {
+    C.code_vacgen = S._tdgm1 * aLcode + S._tdgm1 * aRcode <= P.uR - P.uL;
     if (C.code_vacgen != (ref.kind == K_VACGEN))
       ++A.limit_ties;
   }
@@ -504,7 +512,8 @@ static void check_problem(const ExactRiemannSolver &S, const Prob &P, Result &R,
         ++A.newton;
     }
   } else {
-    C.pattern = "vacuum-generation";
+    C.pattern = ref.kind == K_VAC_LEFT ? "left-vacuum" : ref.kind == K_VAC_RIGHT ? "right-vacuum"
+                                                                                 : "vacuum-generation";
     C.relp = 0.;
     C.tol_u = 16. * EPS * (std::fabs(P.uL) + std::fabs(P.uR) + 2. * C.asum / (g - 1.));
   }
@@ -540,8 +549,8 @@ static void check_problem(const ExactRiemannSolver &S, const Prob &P, Result &R,
   std::vector< Xi > xis;
   const size_t nw = C.waves.size();
   const double span = std::max(C.asum, std::fabs((double)(C.waves[nw - 1].speed - C.waves[0].speed)));
-  xis.push_back({(double)C.waves[0].speed - 0.7 * span, "left of all waves", REG_L});
-  xis.push_back({(double)C.waves[nw - 1].speed + 0.7 * span, "right of all waves", REG_R});
+  xis.push_back({(double)C.waves[0].speed - 0.7 * span, "left of all waves", C.waves[0].left});
+  xis.push_back({(double)C.waves[nw - 1].speed + 0.7 * span, "right of all waves", C.waves[nw - 1].right});
   for (size_t i = 0; i + 1 < nw; ++i) {
     const double s0 = (double)C.waves[i].speed, s1 = (double)C.waves[i + 1].speed;
     const int reg = C.waves[i].right;
@@ -577,12 +586,16 @@ static void check_problem(const ExactRiemannSolver &S, const Prob &P, Result &R,
   }
   // exact ties of the code's own double wave speeds, +-1 ulp
   {
-    const double aL = S.get_soundspeed(1. / P.rL, P.pL), aR = S.get_soundspeed(1. / P.rR, P.pR);
-    std::vector< double > ties = {P.uL - aL, P.uR + aR};
-    if (ref.kind == K_VACGEN) {
+    const double aL = aLcode, aR = aRcode;
+    std::vector< double > ties;
+    if (ref.kind != K_VAC_LEFT)
+      ties.push_back(P.uL - aL);
+    if (ref.kind != K_VAC_RIGHT)
+      ties.push_back(P.uR + aR);
+    if (ref.kind == K_VACGEN || ref.kind == K_VAC_RIGHT)
       ties.push_back(P.uL + S._tdgm1 * aL);
+    if (ref.kind == K_VACGEN || ref.kind == K_VAC_LEFT)
       ties.push_back(P.uR - S._tdgm1 * aR);
-    }
     for (double t : ties) {
       xis.push_back({t, "double tie of the code's wave speed", -1});
       xis.push_back({std::nextafter(t, -INFINITY), "tie - 1 ulp", -1});
@@ -694,6 +707,75 @@ static void check_problem(const ExactRiemannSolver &S, const Prob &P, Result &R,
                                      2. * sp * d + a.tp + b.tp),
                   prob_json(P, xis[pr.lo].xi));
   }
+
+  // ---- the solver's own vacuum boundary ------------------------------------
+  // (vacuum involved) The speed at which the solver switches between "vacuum"
+  // (flag 0) and the fan is located by bisection on the returned flag; the
+  // density and pressure just inside the fan must be zero within the rounding
+  // of the fan formula there: density -> 0 continuously, wherever the code
+  // puts its front.
+  if (ref.kind == K_VAC_LEFT || ref.kind == K_VAC_RIGHT || ref.kind == K_VACGEN) {
+    for (size_t iw = 0; iw < nw; ++iw) {
+      const Wave< LD > &w = C.waves[iw];
+      if (w.type != W_FRONT)
+        continue;
+      const int k = w.side > 0;
+      const int fanreg = k ? REG_RFAN : REG_LFAN;
+      const double front = (double)w.speed, head = (double)C.refl.head[k];
+      // a point just inside the head of the fan and a point in the vacuum
+      const double xf = head + 1e-3 * (front - head);
+      double xv;
+      if (ref.kind == K_VACGEN) {
+        const double other = (double)C.refl.front[1 - k];
+        if (!(std::fabs(other - front) > 64. * (wave_h(C, w) + EPS * std::fabs(front))))
+          continue; // coincident fronts: no vacuum region to start from
+        xv = 0.5 * (front + other);
+      } else {
+        xv = front + 0.7 * (front - head);
+      }
+      St a = run_solver(S, P, xv), b = run_solver(S, P, xf);
+      A.evals += 2;
+      if (a.aborted || b.aborted || a.flag != 0 || b.flag == 0) {
+        ++A.boundary_not_bracketed;
+        continue;
+      }
+      double lo = xv, hi = xf; // lo: vacuum, hi: fan
+      for (int it = 0; it < 200; ++it) {
+        const double mid = 0.5 * (lo + hi);
+        if (mid == lo || mid == hi)
+          break;
+        const St m = run_solver(S, P, mid);
+        ++A.evals;
+        if (m.aborted)
+          break;
+        if (m.flag == 0)
+          lo = mid;
+        else {
+          hi = mid;
+          b = m;
+        }
+      }
+      double r, u, p, tr, tu, tp;
+      ref_state(C, fanreg, hi, r, u, p, tr, tu, tp);
+      // allowed: the rounding interval of the fan formula at that speed (tr,
+      // tp already contain it) around zero
+      const double r1 = b.r / (tr + DBL_MIN), r2 = b.p / (tp + DBL_MIN);
+      const double ratio = std::max(r1, r2);
+      A.note(O_CONT, ratio);
+      if (verbose)
+        printf("  solver's vacuum boundary (side %+d) at %.17g (reference front %.17g): state just inside "
+               "(%.6g, %.6g, %.6g), allowed density %.3g pressure %.3g\n",
+               w.side, hi, front, b.r, b.u, b.p, tr, tp);
+      if (!(ratio <= 1.))
+        R.violation("C11:continuity:" + C.pattern + ":solver-vacuum-boundary" + (k ? ":right" : ":left") +
+                        ((k ? P.uR : P.uL) != 0. ? ":vacuum-moving-gas" : ":vacuum-gas-at-rest"),
+                    prob_text(P) + fmt(": the solver switches from vacuum to the fan at speed %.17g (front of "
+                                       "the reference %.17g); just inside it returns (%.17g, %.17g, %.17g), "
+                                       "density/pressure allowed there (%.3g, %.3g)",
+                                       hi, front, b.r, b.u, b.p, tr, tp),
+                    prob_json(P, hi));
+    }
+  }
 }
 
 // ---------------------------------------------------------------------------
@@ -708,14 +790,19 @@ int main(int argc, char **argv) {
   Args A = parse_args(argc, argv);
   Result R(A);
   install_abort_trap();
-  R.rule = "Cartesian product of non-vacuum state pairs (rho,P per side), adiabatic indices, velocity "
+  R.rule = "Two families. (a) Cartesian product of non-vacuum state pairs (rho,P per side), adiabatic indices, velocity "
            "differences (grid from -6(aL+aR) to 1.2x the vacuum limit, +-1e-9 around the vacuum limit and "
            "around the thresholds of the initial pressure guess) and frames; for each problem the sampling "
            "speeds are region mid points, fan interior points, s(1+-1e-9) and s itself for every wave of the "
            "reference, +-4e-6(aL+aR) around shocks/contact and the code's own double wave speeds +-1 ulp. "
-           "evaluations = solver calls compared with the reference; a case is non-trivial when its sampling "
+           "evaluations = calls of the real solver (samples compared with the reference, plus the calls of the flag "
+           "bisection that locates the solver's own vacuum boundary); a case is non-trivial when its sampling "
            "speed lies in a fan, a star region or the vacuum (not in an unperturbed input state); all "
-           "(problem, speed) pairs are distinct by construction (lists are de-duplicated).";
+           "(problem, speed) pairs are distinct by construction (lists are de-duplicated). (b) One-sided vacuum: "
+           "vacuum | gas and gas | vacuum for every gas (rho,P) of the alphabet, gas velocity k a with k in {0, "
+           "+-0.5, +-1, +-1.5, +-3, +-2/(g-1)}, velocity carried by the vacuum side in {0, 0.37 a (thorough: "
+           "-1.3 a)}, same sampling speeds (fan head and vacuum front instead of tails/shocks); reference = the "
+           "analytic complete fan.";
 
   if (!A.replay.empty()) {
     const std::string text = read_file(A.replay);
@@ -841,6 +928,72 @@ int main(int argc, char **argv) {
   if (stop)
     R.hit_deadline(fmt("%" PRIu64 " of %zu (state pair, gamma) blocks completed", done_outer, ntot));
 
+  // ---- one-sided vacuum: vacuum | gas and gas | vacuum ----------------------
+  // gas (rho, P) over the same decades, gas velocity k a with k in {0, +-0.5,
+  // +-1, +-1.5, +-3} and +-2/(g-1) (vacuum front at speed 0), velocity carried
+  // by the vacuum side 0 or 0.37 a (it must not matter; thorough: also -1.3 a)
+  {
+    struct Gas {
+      size_t ig;
+      double r, p;
+    };
+    std::vector< Gas > gases;
+    for (size_t ig = 0; ig < gammas.size(); ++ig)
+      for (double r : vals)
+        for (double p : vals)
+          gases.push_back({ig, r, p});
+    uint64_t done_vac = 0;
+    bool stopv = false;
+#pragma omp parallel for schedule(dynamic, 1)
+    for (size_t idx = 0; idx < gases.size(); ++idx) {
+      if (stopv)
+        continue;
+      if (R.out_of_time()) {
+#pragma omp critical
+        stopv = true;
+        continue;
+      }
+      Acc &acc = accs[omp_get_thread_num()];
+      const Gas &G = gases[(idx + rot) % gases.size()];
+      const double g = gammas[G.ig];
+      const ExactRiemannSolver &S = *solvers[G.ig];
+      const double a = std::sqrt(g * G.p / G.r);
+      std::vector< double > ks = {0., 0.5, -0.5, 1., -1., 1.5, -1.5, 3., -3., S._tdgm1, -S._tdgm1};
+      std::vector< double > uvac = {0., 0.37 * a};
+      if (th)
+        uvac.push_back(-1.3 * a);
+      for (double k : ks)
+        for (double uv : uvac)
+          for (int side = 0; side < 2; ++side) {
+            Prob P;
+            P.g = g;
+            if (side == 0) { // vacuum | gas
+              P.rL = 0.;
+              P.pL = 0.;
+              P.uL = uv;
+              P.rR = G.r;
+              P.pR = G.p;
+              P.uR = k * a;
+            } else { // gas | vacuum
+              P.rL = G.r;
+              P.pL = G.p;
+              P.uL = k * a;
+              P.rR = 0.;
+              P.pR = 0.;
+              P.uR = uv;
+            }
+            check_problem(S, P, R, acc, false);
+            if (idx == 3 && k == 0.5 && uv == 0.)
+              R.sample(prob_json(P, 0.));
+          }
+#pragma omp atomic
+      ++done_vac;
+    }
+    if (stopv)
+      R.hit_deadline(fmt("one-sided vacuum: %" PRIu64 " of %zu (gamma, gas state) blocks completed", done_vac,
+                         gases.size()));
+  }
+
   Acc T;
   for (const Acc &a : accs) {
     T.evals += a.evals;
@@ -854,6 +1007,7 @@ int main(int argc, char **argv) {
     T.limit_ties += a.limit_ties;
     T.crowded += a.crowded;
     T.underflow += a.underflow;
+    T.boundary_not_bracketed += a.boundary_not_bracketed;
     for (int o = 0; o < O_COUNT; ++o) {
       T.checks[o] += a.checks[o];
       T.near[o] += a.near[o];
@@ -869,6 +1023,8 @@ int main(int argc, char **argv) {
   R.set("problems", (double)T.problems);
   R.set("problems_normal", (double)T.kinds[K_NORMAL]);
   R.set("problems_vacuum_generation", (double)T.kinds[K_VACGEN]);
+  R.set("problems_left_vacuum", (double)T.kinds[K_VAC_LEFT]);
+  R.set("problems_right_vacuum", (double)T.kinds[K_VAC_RIGHT]);
   R.set("guess_brackets_root_brent_first", (double)T.brent);
   R.set("guess_below_root_newton_first", (double)T.newton);
   R.set("samples_in_either_side_band", (double)T.either_side);
@@ -877,6 +1033,7 @@ int main(int argc, char **argv) {
   R.set("vacuum_limit_decided_differently_in_double", (double)T.limit_ties);
   R.set("continuity_pairs_skipped_coincident_waves", (double)T.crowded);
   R.set("problems_star_pressure_below_double_range", (double)T.underflow);
+  R.set("solver_vacuum_boundaries_not_bracketed", (double)T.boundary_not_bracketed);
   for (int o = 0; o < O_COUNT; ++o) {
     R.set(std::string("checks_") + oname[o], (double)T.checks[o]);
     R.set(std::string("within_10x_of_tolerance_") + oname[o], (double)T.near[o]);
